@@ -53,10 +53,11 @@ VARIABLES
   hand,     \* thr -> message extracted and not yet executed/released (0: none)
   voted,    \* thr -> the thread has cast its termination vote
   maxDecl,  \* thr -> largest timestamp at which one of its LPs ever declared its predicate true
-  mustVote  \* thr -> the GVT just handed over obliges the thread to vote now
+  mustVote, \* thr -> the GVT just handed over obliges the thread to vote now
+  announced \* the termination of this node has been announced (MSG_CTRL_TERMINATION processed)
 
 vars == <<msg, hist, base, ckpt, owner, rb, cpos, cheld, termT, gvtSeen, gvtCnt, gvtVals, finiLp, finiQ,
-          votes, stopped, exited, hand, voted, maxDecl, mustVote>>
+          votes, stopped, exited, hand, voted, maxDecl, mustVote, announced>>
 
 NoRb == [on |-> FALSE, lp |-> -1, past |-> 0, restored |-> FALSE, touched |-> {}]
 
@@ -82,6 +83,7 @@ Init ==
   /\ voted = [r \in Threads |-> FALSE]
   /\ maxDecl = [r \in Threads |-> 0]
   /\ mustVote = [r \in Threads |-> FALSE]
+  /\ announced = FALSE
 
 ----------------------------------------------------------------------------
 (* helpers *)
@@ -114,7 +116,7 @@ Failed(cs) == SelectSeq(cs, LAMBDA c : ~c[1])
 Alloc(r, m) ==
   /\ msg' = Put(msg, m, [lp |-> -1, t |-> -1, ty |-> -1, pid |-> -1, flags |-> 0, inq |-> "new", q |-> r, src |-> -1])
   /\ UNCHANGED <<hist, base, ckpt, owner, rb, cpos, cheld, termT, gvtSeen, gvtCnt, gvtVals, finiLp, finiQ, votes,
-                 stopped, exited, hand, voted, maxDecl, mustVote>>
+                 stopped, exited, hand, voted, maxDecl, mustVote, announced>>
 AllocChecks(r, m) ==
   << <<~Live(m), "C06", "buffer handed out while still live">>,
      \* events re-executed silently must not emit events (ScheduleNewEvent returns before packing)
@@ -125,7 +127,7 @@ LpInit(r, p, m, g, pred) ==
   /\ msg' = [msg EXCEPT ![m] = [@ EXCEPT !.lp = p, !.t = 0, !.ty = 65534, !.flags = 2, !.inq = "none"]]
   /\ hist' = [hist EXCEPT ![p] = Append(@, [k |-> "e", m |-> m, t |-> 0, ty |-> 65534, pid |-> -1, g |-> g, pred |-> pred])]
   /\ owner' = [owner EXCEPT ![p] = r]
-  /\ UNCHANGED <<base, ckpt, rb, cpos, cheld, termT, gvtSeen, gvtCnt, gvtVals, finiLp, finiQ, votes, stopped, exited, hand, voted, maxDecl, mustVote>>
+  /\ UNCHANGED <<base, ckpt, rb, cpos, cheld, termT, gvtSeen, gvtCnt, gvtVals, finiLp, finiQ, votes, stopped, exited, hand, voted, maxDecl, mustVote, announced>>
 LpInitChecks(r, p, m) ==
   << <<Live(m) /\ msg[m].inq = "new", "C06", "LP_INIT uses a buffer that is not fresh">>,
      <<owner[p] = -1, "C14", "LP initialised twice">> >>
@@ -137,7 +139,7 @@ Push(r, m, q, c) ==
                                 THEN [@ EXCEPT !.lp = c.lp, !.t = c.t, !.ty = c.ty, !.pid = c.pid, !.inq = "inbox", !.q = q]
                                 ELSE [@ EXCEPT !.inq = "inbox", !.q = q]]
   /\ UNCHANGED <<hist, base, ckpt, owner, rb, cpos, cheld, termT, gvtSeen, gvtCnt, gvtVals, finiLp, finiQ, votes,
-                 stopped, exited, hand, voted, maxDecl, mustVote>>
+                 stopped, exited, hand, voted, maxDecl, mustVote, announced>>
 PushChecks(r, m, q, c) ==
   << <<Live(m), "C06", "freed buffer inserted into a queue">>,
      <<Live(m) => msg[m].inq \in {"new", "none"}, "C06", "message inserted while already queued">>,
@@ -152,7 +154,7 @@ Send(r, p, m) ==
   /\ hist' = [hist EXCEPT ![p] = Append(@, [k |-> "s", m |-> m, t |-> msg[m].t, ty |-> msg[m].ty, pid |-> msg[m].pid, g |-> NoGhost, pred |-> FALSE])]
   /\ msg' = [msg EXCEPT ![m].src = p]
   /\ UNCHANGED <<base, ckpt, owner, rb, cpos, cheld, termT, gvtSeen, gvtCnt, gvtVals, finiLp, finiQ, votes, stopped,
-                 exited, hand, voted, maxDecl, mustVote>>
+                 exited, hand, voted, maxDecl, mustVote, announced>>
 SendChecks(r, p, m) ==
   << <<Live(m), "C06", "sent message is not live">>,
      <<owner[p] \in {-1, r}, "C14", "LP runs on a thread that does not own it">> >>
@@ -161,7 +163,7 @@ SendChecks(r, p, m) ==
 Drain(r, n) ==
   /\ msg' = [m \in DOMAIN msg |-> IF m \in InboxOf(r) THEN [msg[m] EXCEPT !.inq = "heap"] ELSE msg[m]]
   /\ UNCHANGED <<hist, base, ckpt, owner, rb, cpos, cheld, termT, gvtSeen, gvtCnt, gvtVals, finiLp, finiQ, votes,
-                 stopped, exited, hand, voted, maxDecl, mustVote>>
+                 stopped, exited, hand, voted, maxDecl, mustVote, announced>>
 DrainChecks(r, n) ==
   << <<Cardinality(InboxOf(r)) = n, "C15", "buffer swap lost or duplicated an inserted event">> >>
 
@@ -170,7 +172,7 @@ Extract(r, m) ==
   /\ msg' = [msg EXCEPT ![m].inq = "none"]
   /\ hand' = [hand EXCEPT ![r] = m]
   /\ UNCHANGED <<hist, base, ckpt, owner, rb, cpos, cheld, termT, gvtSeen, gvtCnt, gvtVals, finiLp, finiQ, votes,
-                 stopped, exited, voted, maxDecl, mustVote>>
+                 stopped, exited, voted, maxDecl, mustVote, announced>>
 ExtractChecks(r, m) ==
   << <<Live(m), "C06", "freed buffer extracted">>,
      <<Live(m) => m \in HeapOf(r), "C15", "extracted an event that was not transferred to this thread">>,
@@ -183,7 +185,7 @@ ExtractChecks(r, m) ==
 Flag(r, m, old) ==
   /\ msg' = [msg EXCEPT ![m].flags = old + 2]
   /\ UNCHANGED <<hist, base, ckpt, owner, rb, cpos, cheld, termT, gvtSeen, gvtCnt, gvtVals, finiLp, finiQ, votes,
-                 stopped, exited, hand, voted, maxDecl, mustVote>>
+                 stopped, exited, hand, voted, maxDecl, mustVote, announced>>
 FlagChecks(r, m, old) ==
   << <<Live(m), "C06", "flag of a freed buffer updated">>,
      <<Live(m) => m \in HandOf(r), "C06", "flag update on a message not in hand">>,
@@ -197,7 +199,7 @@ FlagChecks(r, m, old) ==
 RbBegin(r, p, past) ==
   /\ rb' = [rb EXCEPT ![r] = [on |-> TRUE, lp |-> p, past |-> past, restored |-> FALSE, touched |-> {}]]
   /\ UNCHANGED <<msg, hist, base, ckpt, owner, cpos, cheld, termT, gvtSeen, gvtCnt, gvtVals, finiLp, finiQ, votes,
-                 stopped, exited, hand, voted, maxDecl, mustVote>>
+                 stopped, exited, hand, voted, maxDecl, mustVote, announced>>
 RbBeginChecks(r, p, past) ==
   << <<owner[p] = r, "C14", "rollback of an LP by a thread that does not own it">>,
      <<past <= Len(hist[p]), "C05", "rollback target beyond the history">>,
@@ -211,7 +213,7 @@ AntiLocal(r, m, old) ==
   /\ msg' = [msg EXCEPT ![m].flags = old + 1]
   /\ rb' = [rb EXCEPT ![r].touched = @ \cup {m}]
   /\ UNCHANGED <<hist, base, ckpt, owner, cpos, cheld, termT, gvtSeen, gvtCnt, gvtVals, finiLp, finiQ, votes,
-                 stopped, exited, hand, voted, maxDecl, mustVote>>
+                 stopped, exited, hand, voted, maxDecl, mustVote, announced>>
 AntiLocalChecks(r, m, old) ==
   << <<Live(m), "C06", "anti-message for a buffer that was already released">>,
      <<rb[r].on /\ ~rb[r].restored, "C06", "cancellation outside a rollback">>,
@@ -225,7 +227,7 @@ Undo(r, m, old) ==
   /\ msg' = [msg EXCEPT ![m].flags = old - 2]
   /\ rb' = [rb EXCEPT ![r].touched = @ \cup {m}]
   /\ UNCHANGED <<hist, base, ckpt, owner, cpos, cheld, termT, gvtSeen, gvtCnt, gvtVals, finiLp, finiQ, votes,
-                 stopped, exited, hand, voted, maxDecl, mustVote>>
+                 stopped, exited, hand, voted, maxDecl, mustVote, announced>>
 UndoChecks(r, m, old) ==
   << <<Live(m), "C06", "undone event buffer already released">>,
      <<rb[r].on /\ ~rb[r].restored, "C06", "event undone outside a rollback">>,
@@ -239,7 +241,7 @@ Restore(r, p, last, past) ==
   /\ hist' = [hist EXCEPT ![p] = SubSeq(@, 1, past)]
   /\ ckpt' = [ckpt EXCEPT ![p] = SelectSeq(@, LAMBDA c : c.ref <= last)]
   /\ rb' = [rb EXCEPT ![r].restored = TRUE]
-  /\ UNCHANGED <<msg, base, owner, cpos, cheld, termT, gvtSeen, gvtCnt, gvtVals, finiLp, finiQ, votes, stopped, exited, hand, voted, maxDecl, mustVote>>
+  /\ UNCHANGED <<msg, base, owner, cpos, cheld, termT, gvtSeen, gvtCnt, gvtVals, finiLp, finiQ, votes, stopped, exited, hand, voted, maxDecl, mustVote, announced>>
 \* every undone entry must have been visited: sent messages cancelled, events unmarked
 RestoreChecks(r, p, last, past) ==
   << <<rb[r].on /\ rb[r].lp = p /\ rb[r].past = past, "C05", "restore does not belong to the rollback in progress">>,
@@ -256,7 +258,7 @@ RestoreChecks(r, p, last, past) ==
 RbEnd(r, p, g) ==
   /\ rb' = [rb EXCEPT ![r] = NoRb]
   /\ UNCHANGED <<msg, hist, base, ckpt, owner, cpos, cheld, termT, gvtSeen, gvtCnt, gvtVals, finiLp, finiQ, votes,
-                 stopped, exited, hand, voted, maxDecl, mustVote>>
+                 stopped, exited, hand, voted, maxDecl, mustVote, announced>>
 RbEndChecks(r, p, g, size, calc) ==
   << <<rb[r].on /\ rb[r].restored /\ rb[r].lp = p, "C05", "rollback end without restore">>,
      <<g = GhostAt(p, Len(hist[p])), "C05", "state after rollback differs from the state after the last valid event">>,
@@ -267,7 +269,7 @@ Exec(r, p, m, g, pred) ==
   /\ hist' = [hist EXCEPT ![p] = Append(@, [k |-> "e", m |-> m, t |-> msg[m].t, ty |-> msg[m].ty, pid |-> msg[m].pid, g |-> g, pred |-> pred])]
   /\ hand' = [hand EXCEPT ![r] = 0]
   /\ UNCHANGED <<msg, base, ckpt, owner, rb, cpos, cheld, termT, gvtSeen, gvtCnt, gvtVals, finiLp, finiQ, votes, stopped,
-                 exited, voted, maxDecl, mustVote>>
+                 exited, voted, maxDecl, mustVote, announced>>
 LastEvT(p) == IF EvIdx(p, Len(hist[p])) = {} THEN -1 ELSE hist[p][Max(EvIdx(p, Len(hist[p])))].t
 ExecChecks(r, p, m, size, calc) ==
   << <<Live(m), "C06", "executed a freed event">>,
@@ -282,7 +284,7 @@ ExecChecks(r, p, m, size, calc) ==
 Ckpt(r, p, ref, size) ==
   /\ ckpt' = [ckpt EXCEPT ![p] = Append(@, [ref |-> ref, size |-> size])]
   /\ UNCHANGED <<msg, hist, base, owner, rb, cpos, cheld, termT, gvtSeen, gvtCnt, gvtVals, finiLp, finiQ, votes, stopped,
-                 exited, hand, voted, maxDecl, mustVote>>
+                 exited, hand, voted, maxDecl, mustVote, announced>>
 CkptChecks(r, p, ref, size) ==
   << <<ref = Len(hist[p]), "C13", "checkpoint reference is not the current history length">>,
      <<ckpt[p] # <<>> => ckpt[p][Len(ckpt[p])].ref < ref, "C13", "checkpoint references do not increase">> >>
@@ -296,7 +298,7 @@ Fossil(r, p, g, n) ==
                                    [i \in 1..Len(keep) |-> [ref |-> keep[i].ref - n, size |-> keep[i].size]]]
   /\ cpos' = [cpos EXCEPT ![p] = @ + Len(CommittedOf(p, n))]
   /\ cheld' = [cheld EXCEPT ![p] = @ \/ \E i \in 1..n : hist[p][i].k = "e" /\ hist[p][i].pred]
-  /\ UNCHANGED <<msg, owner, rb, termT, gvtSeen, gvtCnt, gvtVals, finiLp, finiQ, votes, stopped, exited, hand, voted, maxDecl, mustVote>>
+  /\ UNCHANGED <<msg, owner, rb, termT, gvtSeen, gvtCnt, gvtVals, finiLp, finiQ, votes, stopped, exited, hand, voted, maxDecl, mustVote, announced>>
 FossilChecks(r, p, g, n) ==
   << <<owner[p] = r, "C14", "fossil collection by a thread that does not own the LP">>,
      <<n <= Len(hist[p]), "C13", "released more than the history holds">>,
@@ -315,7 +317,7 @@ Free(r, m) ==
   /\ msg' = Drop(msg, m)
   /\ hand' = [hand EXCEPT ![r] = IF @ = m THEN 0 ELSE @]
   /\ UNCHANGED <<hist, base, ckpt, owner, rb, cpos, cheld, termT, gvtSeen, gvtCnt, gvtVals, finiLp, finiQ, votes,
-                 stopped, exited, voted, maxDecl, mustVote>>
+                 stopped, exited, voted, maxDecl, mustVote, announced>>
 FreeChecks(r, m) ==
   << <<Live(m), "C06", "message buffer released twice">>,
      <<Live(m) => ~Reachable(r, m), "C06", "message buffer released while still reachable">> >>
@@ -332,7 +334,7 @@ Gvt(r, g) ==
   \* C08: once every LP of the thread has its predicate true on a committed state, and no LP of the
   \* thread ever declared at or above g, the thread has to vote at this GVT (termination_on_gvt)
   /\ mustVote' = [mustVote EXCEPT ![r] = ~voted[r] /\ g > maxDecl[r] /\ \A p \in LpSet : owner[p] = r => HeldCommitted(p, g)]
-  /\ UNCHANGED <<msg, hist, base, ckpt, owner, rb, cpos, cheld, termT, finiLp, finiQ, votes, stopped, exited, hand, voted, maxDecl>>
+  /\ UNCHANGED <<msg, hist, base, ckpt, owner, rb, cpos, cheld, termT, finiLp, finiQ, votes, stopped, exited, hand, voted, maxDecl, announced>>
 PendingMin == IF {m \in Pending : msg[m].t >= 0} = {} THEN Inf ELSE Min({msg[m].t : m \in {x \in Pending : msg[x].t >= 0}})
 GvtChecks(r, g) ==
   << <<g >= gvtSeen[r], "C04", "GVT decreased">>,
@@ -346,15 +348,15 @@ TermLp(r, p, t, term) ==
   /\ termT' = [termT EXCEPT ![p] = IF term THEN t ELSE @]
   /\ maxDecl' = [maxDecl EXCEPT ![r] = IF term /\ t > @ THEN t ELSE @]
   /\ UNCHANGED <<msg, hist, base, ckpt, owner, rb, cpos, cheld, gvtSeen, gvtCnt, gvtVals, finiLp, finiQ, votes, stopped,
-                 exited, hand, voted, mustVote>>
+                 exited, hand, voted, mustVote, announced>>
 TermInit(r, p, term) ==
   /\ cheld' = [cheld EXCEPT ![p] = term]
   /\ termT' = [termT EXCEPT ![p] = IF term THEN 0 ELSE -1]
-  /\ UNCHANGED <<msg, hist, base, ckpt, owner, rb, cpos, gvtSeen, gvtCnt, gvtVals, finiLp, finiQ, votes, stopped, exited, hand, voted, maxDecl, mustVote>>
+  /\ UNCHANGED <<msg, hist, base, ckpt, owner, rb, cpos, gvtSeen, gvtCnt, gvtVals, finiLp, finiQ, votes, stopped, exited, hand, voted, maxDecl, mustVote, announced>>
 TermUndo(r, p, keep) ==
   /\ termT' = [termT EXCEPT ![p] = IF keep THEN @ ELSE -1]
   /\ UNCHANGED <<msg, hist, base, ckpt, owner, rb, cpos, cheld, gvtSeen, gvtCnt, gvtVals, finiLp, finiQ, votes, stopped,
-                 exited, hand, voted, maxDecl, mustVote>>
+                 exited, hand, voted, maxDecl, mustVote, announced>>
 
 
 (* termination_on_gvt casts the vote of thread r with GVT g *)
@@ -363,18 +365,27 @@ Vote(r, g) ==
   /\ voted' = [voted EXCEPT ![r] = TRUE]
   /\ mustVote' = [mustVote EXCEPT ![r] = FALSE]
   /\ UNCHANGED <<msg, hist, base, ckpt, owner, rb, cpos, cheld, termT, gvtSeen, gvtCnt, gvtVals, finiLp, finiQ, stopped,
-                 exited, hand, maxDecl>>
+                 exited, hand, maxDecl, announced>>
 VoteChecks(r, g, termTime) ==
   << <<g >= termTime \/ \A p \in LpSet : owner[p] = r => HeldCommitted(p, g),
        "C07", "thread voted to terminate although an LP's predicate has not held on a committed state">> >>
 
+(* termination_on_ctrl_msg: the end of the run has been announced to this node *)
+TermCtrl ==
+  /\ announced' = TRUE
+  /\ UNCHANGED <<msg, hist, base, ckpt, owner, rb, cpos, cheld, termT, gvtSeen, gvtCnt, gvtVals, finiLp, finiQ, votes, stopped, exited,
+                 hand, voted, maxDecl, mustVote>>
+\* C08: once every worker thread has voted, the termination must be announced before the next GVT value
+Announced == <<(\A q \in Threads : voted[q]) => announced, "C08",
+               "every thread voted to terminate a full GVT round ago but the end of the run was never announced">>
+
 Stop ==
   /\ stopped' = TRUE
-  /\ UNCHANGED <<msg, hist, base, ckpt, owner, rb, cpos, cheld, termT, gvtSeen, gvtCnt, gvtVals, finiLp, finiQ, votes, exited, hand, voted, maxDecl, mustVote>>
+  /\ UNCHANGED <<msg, hist, base, ckpt, owner, rb, cpos, cheld, termT, gvtSeen, gvtCnt, gvtVals, finiLp, finiQ, votes, exited, hand, voted, maxDecl, mustVote, announced>>
 
 LoopExit(r) ==
   /\ exited' = [exited EXCEPT ![r] = TRUE]
-  /\ UNCHANGED <<msg, hist, base, ckpt, owner, rb, cpos, cheld, termT, gvtSeen, gvtCnt, gvtVals, finiLp, finiQ, votes, stopped, hand, voted, maxDecl, mustVote>>
+  /\ UNCHANGED <<msg, hist, base, ckpt, owner, rb, cpos, cheld, termT, gvtSeen, gvtCnt, gvtVals, finiLp, finiQ, votes, stopped, hand, voted, maxDecl, mustVote, announced>>
 NoPendingVote(r) == <<~mustVote[r], "C08", "every LP of the thread has its predicate true on a committed state but the thread did not vote to terminate">>
 LastGvt == IF gvtVals = <<>> THEN 0 ELSE gvtVals[Len(gvtVals)]
 LoopExitChecks(r, termTime) ==
@@ -384,14 +395,14 @@ LoopExitChecks(r, termTime) ==
 
 QueueFini(r) ==
   /\ finiQ' = [finiQ EXCEPT ![r] = TRUE]
-  /\ UNCHANGED <<msg, hist, base, ckpt, owner, rb, cpos, cheld, termT, gvtSeen, gvtCnt, gvtVals, finiLp, votes, stopped, exited, hand, voted, maxDecl, mustVote>>
+  /\ UNCHANGED <<msg, hist, base, ckpt, owner, rb, cpos, cheld, termT, gvtSeen, gvtCnt, gvtVals, finiLp, votes, stopped, exited, hand, voted, maxDecl, mustVote, announced>>
 \* both flushing GVT rounds of gvt_msg_drain have transferred every inbox into the private heap
 QueueFiniChecks(r) ==
   << <<InboxOf(r) = {}, "C11", "inbox not empty at queue teardown (msg_queue_fini walks a freed list)">> >>
 
 LpFini(r, p) ==
   /\ finiLp' = [finiLp EXCEPT ![p] = TRUE]
-  /\ UNCHANGED <<msg, hist, base, ckpt, owner, rb, cpos, cheld, termT, gvtSeen, gvtCnt, gvtVals, finiQ, votes, stopped, exited, hand, voted, maxDecl, mustVote>>
+  /\ UNCHANGED <<msg, hist, base, ckpt, owner, rb, cpos, cheld, termT, gvtSeen, gvtCnt, gvtVals, finiQ, votes, stopped, exited, hand, voted, maxDecl, mustVote, announced>>
 LpFiniChecks(r, p) ==
   << <<~finiLp[p], "C08", "LP_FINI invoked twice for an LP">>,
      <<owner[p] = r, "C14", "LP finalised by a thread that does not own it">>,
